@@ -589,6 +589,9 @@ class ExcelCompiler:
                     processed_cells.add(child_address)
                     child_cell = self.cell_map[child_address]
                     if child_address in needed_cells or ':' in child_address:
+                        # (ranges are needed too, an unbounded range is
+                        # saved with the area it stands for)
+                        needed_cells.add(child_address)
                         walk_precedents(child_cell)
                     else:
                         # trim this cell, now we will need only its value
